@@ -40,7 +40,7 @@ theorem cleanArts_of_clean (a : Arts) (h : CleanArts a) : cleanArts a = a := by
       filter_id_of_all _ _ (fun kv hkv => by simp [hk kv hkv])
     have h2 : l.filter (fun kv => decide (Path.clean kv.1 ≠ kv.1)) = [] :=
       filter_nil_of_none _ _ (fun kv hkv => by simp [hk kv hkv])
-    simp only [cleanArts, h1, h2, List.foldl]
+    simp only [cleanArts, h1, h2, sortBy, List.foldr, List.foldl]
 
 theorem setSel_sel (t : ArtType) (l : LinkArts) : setSel t l (sel t l) = l := by
   cases t <;> rfl
